@@ -1429,7 +1429,7 @@ func TestC11(t *testing.T) {
 	zerologger.Logger = zerolog.New(io.Discard)
 	deadlock.Opts.Disable = true
 	col := NewCollector("C11", "Check.C11",
-		"histories of 2-9 operations (registration rounds by the job or the API, REST forwarding, proposal preparations) over 1-6 validators, 0-3 relays with per-relay settings, 0-3 secondary and 1-3 preparation beacon nodes, with settings changing between rounds (A->B->A included) and failing subsets of relays / nodes / signing requests / validators; in half of the histories relays and beacon nodes take time (0-250 ms, sometimes seconds; failing ones mostly fast) and abandon a request whose context is cancelled first, as real clients do, and a request counts only when it arrives; run on the real block relay and proposal preparer services in a synctest bubble. Non-trivial = at least two rounds did their work, a signature was made and a cached registration was reused; distinct by input text")
+		"histories of 2-9 operations (registration rounds by the job or the API, REST forwarding, proposal preparations) over 1-6 validators, 0-3 relays with per-relay settings, 0-3 secondary and 1-3 preparation beacon nodes, with settings changing between rounds (A->B->A included) and failing subsets of relays / nodes / signing requests / validators; in half of the histories relays and beacon nodes take time (0-250 ms, sometimes seconds; failing ones mostly fast) and abandon a request whose context is cancelled first, as real clients do, and a request counts only when it arrives; in half of the histories the chain time advances over epochs and the accounts provider, which answers the accounts validating at the epoch it is ASKED for, knows validators that activate (at some operation: at the next epoch), exit or stay pending during the history; run on the real block relay and proposal preparer services in a synctest bubble. Non-trivial = at least two rounds did their work, a signature was made and a cached registration was reused; distinct by input text")
 	col.ShardSize = 100 // the terms are long: about 60 ms per case in coqc
 	n := EnvInt("VERIF_N", 500)
 	thorough := os.Getenv("VERIF_TIER") == "thorough"
